@@ -59,6 +59,42 @@ def comm8 : Handler
     | _ => none
   | _, _ => none
 
+
+def cls (s : String) : String :=
+  match Val.parse s with
+  | some (.int _) => "num" | some (.float _) => "num" | some .void => "text" | some (.str _) => "text"
+  | some v => toString v.kind | none => s
+
+/-- `nary8 <min|max> <v>…  | <r(vs)> <r(reverse vs)>`: the variadic min/max. Model = the fold over
+the regenerated tables; spec = absent arguments are ignored wherever they stand (identity),
+a lone argument comes back unchanged (scalars, JSON null, absent), absent arguments among the
+documented ordered kinds (numbers < booleans < empty < strings) are ignored, and for two arguments the result kind is independent of
+argument order. -/
+def nary8 : Handler
+  | f :: ss, impl => do
+    let vs ← ss.mapM Val.parse
+    let (bt, ut) ← if f == "min" then some (Gen.bifs_min_dispositions, Gen.bifs_min_unary_dispositions)
+                   else if f == "max" then some (Gen.bifs_max_dispositions, Gen.bifs_max_unary_dispositions) else none
+    let (r1, r2) ← match impl.splitOn " " with | [a, b] => some (a, b) | _ => none
+    let m1 := Disp.variadic bt ut Gen.bifs_uneg_dispositions vs
+    let m2 := Disp.variadic bt ut Gen.bifs_uneg_dispositions vs.reverse
+    let sh (m : Out) (r : String) : String := if m == .unmodelled then r else m.show
+    let model := sh m1 r1 ++ " " ++ sh m2 r2
+    let simple (v : Val) : Bool := isScalarForError v || v == .null || v == .absent
+    let ordered (v : Val) : Bool := isNum v || (match v with | .bool _ => true | .void => true | .str _ => true | _ => false)
+    let noAbs := vs.filter (· != .absent)
+    let mNoAbs := Disp.variadic bt ut Gen.bifs_uneg_dispositions noAbs
+    let spec :=
+      if r1 == "panic" || r2 == "panic" then some ("-", "a value, never a panic")
+      else if vs.length == 2 && cls r1 != cls r2 then some ("-", s!"same result kind in either argument order; got {cls r1} vs {cls r2}")
+      else match vs with
+        | [v] => if simple v && r1 != v.show then some ("-", v.show) else none
+        | _ =>
+          if vs.all (fun v => ordered v || v == .absent) && noAbs.length < vs.length && !noAbs.isEmpty && mNoAbs != .unmodelled && mNoAbs.show != r1
+          then some ("-", s!"{mNoAbs.show} (absent arguments ignored)") else none
+    pure { model, spec }
+  | _, _ => none
+
 /-- `un8 <table> <v>`: unary vectors over all kinds. -/
 def un8 : Handler
   | [t, s1], impl => do
